@@ -167,7 +167,15 @@ pub fn soup_program(rng: &mut Rng, n: usize) -> String {
     s
 }
 
-pub const STRESS: [&str; 14] = [
+pub const STRESS: [&str; 22] = [
+    "class A;\nclass B : A;\nclass A : B { int v = w; }\ndef d : A { let z = 1; }",
+    "class Foo;\ndef d : Foo;\nclass Foo { int x = 1; }\ndef e : Foo { let x = 2; }\nclass Foo {}\nclass Foo<int a>;",
+    "foreach = [1, 2] in def a;\ndefvar v = 1;\nforeach = [3] in { def b; }\ndefvar w = v;",
+    "defset list<A> Outer = {\n  defset list<A> Inner = { def x : A; }\n  if true then { def y : A; }\n}\nclass A;",
+    "defvar x = 1;\nclass C<int x = x> { int x = x; int y = x; defvar x = x; }\nforeach x = [x] in def d#x : C<x> { let x = x; }",
+    "multiclass M { ; def _a;; }\ndefm m : M;",
+    "class z<>;\ndef a { int x = !cond(); list<int> l = b[]; bits<2> c = d{}; }",
+    "}\nclass A { int x; }\n}\ndef d : A;",
     "class A : A { let x = 1; }",
     "class A : A;\ndef d : A { int y = x; }",
     "class A<int a> : B<a>;\nclass B<int b> : A<b>;\ndef d : A<1>, B<2>;",
